@@ -118,6 +118,43 @@ def correspond(ctx):
                     lines.append(f'c08.normalt {order} {qs(tmap)} {qs(w)} {qs(y - b)}')
                     floor = [float(np.sum(w * np.abs(tmap) ** j * np.abs(y))) for j in range(order + 1)]
                     checks.append(('normal', meta, (order, floor)))
+    # (b') every other keyword of every polynomial method moved, one at a time, to its alternative values (iteration limits 0/1/5,
+    # tolerances, thresholds, cost functions, ...): the returned coefficients must still reproduce the returned baseline
+    from . import methods as M
+    reg1 = M.registry(False)
+    for name in sorted({m for m, _ in METHODS_1D}):
+        e = reg1[name]
+        order = int(rng.choice([1, 2, 3]))
+        svs = M.single_variants(name, e, False, base={'poly_order': order, 'return_coef': True})
+        if not ctx.thorough and len(svs) > 14:
+            svs = [svs[i] for i in sorted(rng.choice(len(svs), 14, replace=False))]
+        for kw in svs:
+            if not kw.get('return_coef', False):
+                continue
+            dom = doms[int(rng.integers(0, len(doms)))]
+            n = 40
+            x = xs_for(rng, dom, n, 'uniform' if name == 'dietrich' else ['uniform', 'random', 'unsorted'][int(rng.integers(0, 3))])
+            y = y_for(rng, x)
+            order = kw['poly_order']
+            meta = {'method': name, 'kw': dict(kw), 'x': x.tolist(), 'y': y.tolist(), 'two_d': False}
+            try:
+                with np.errstate(all='ignore'):
+                    b, p = getattr(Baseline(x), name)(y, **kw)
+            except Exception as ex:
+                ctx.count('raises:' + type(ex).__name__)
+                continue
+            moved = sorted(k for k in kw if k not in ('return_coef',) and kw[k] != e['params'].get(k))
+            ctx.case(('variant', name, tuple((k, str(kw[k])) for k in moved), dom), nontrivial=True)
+            ctx.count('variant:' + name)
+            if not np.all(np.isfinite(b)) or 'coef' not in p:
+                ctx.count('variant-no-coef:' + name)
+                continue
+            coef = np.asarray(p['coef'], dtype=float)
+            if coef.shape != (order + 1,):
+                dis.append(Disagreement('c08.coef', f'coef:shape:{name}', f'{name} {moved}: coef has shape {coef.shape} for poly_order {order}', meta, True))
+                continue
+            lines.append(f'c08.evalb {qs(coef)} {qs(x)}')
+            checks.append(('evalb', meta, (b, order)))
     # loess coefficients: one row per point
     for dom in doms[:3]:
         n = 30
@@ -193,6 +230,41 @@ def correspond(ctx):
                     dis.append(Disagreement('c08.normal', 'normal:2d', f'2-D poly (order {(ox, oz)}, max_cross {mc}): residual is not W-orthogonal to '
                                             f'the allowed polynomial terms (relative {float(np.max(num / den)):.3g}) - not the least-squares polynomial',
                                             dict(meta, check='normal2d'), True))
+    reg2 = M.registry(True)
+    for name in sorted({m for m, _ in METHODS_2D}):
+        e = reg2[name]
+        svs = M.single_variants(name, e, True, base={'poly_order': (2, 1), 'return_coef': True})
+        if not ctx.thorough and len(svs) > 8:
+            svs = [svs[i] for i in sorted(rng.choice(len(svs), 8, replace=False))]
+        for kw in svs:
+            if not kw.get('return_coef', False):
+                continue
+            dx, dz = DOMAINS[int(rng.integers(0, len(DOMAINS)))], DOMAINS[int(rng.integers(0, len(DOMAINS)))]
+            m, n = 9, 8
+            x, z = np.linspace(*dx, m), np.linspace(*dz, n)
+            tx, tz = np.meshgrid(np.linspace(0, 1, m), np.linspace(0, 1, n), indexing='ij')
+            Y = 3 + 2 * tx - tz + tx * tz + 5 * np.exp(-((tx - 0.5) / 0.2) ** 2 - ((tz - 0.4) / 0.2) ** 2) + rng.normal(0, 0.03, (m, n))
+            po = kw['poly_order']
+            ox, oz = (po, po) if isinstance(po, int) else po
+            meta = {'method': name, 'kw': {k: (list(v) if isinstance(v, tuple) else v) for k, v in kw.items()},
+                    'x': x.tolist(), 'z': z.tolist(), 'y': Y.tolist(), 'two_d': True}
+            try:
+                with np.errstate(all='ignore'):
+                    b, p = getattr(Baseline2D(x, z), name)(Y, **kw)
+            except Exception as ex:
+                ctx.count('raises2d:' + type(ex).__name__)
+                continue
+            moved = sorted(k for k in kw if k not in ('return_coef',) and kw[k] != e['params'].get(k))
+            ctx.case(('variant2d', name, tuple((k, str(kw[k])) for k in moved), dx, dz), nontrivial=True)
+            ctx.count('variant2d:' + name)
+            if not np.all(np.isfinite(b)) or 'coef' not in p:
+                continue
+            coef = np.asarray(p['coef'], dtype=float)
+            if coef.shape != (ox + 1, oz + 1):
+                dis.append(Disagreement('c08.coef', f'coef2d:shape:{name}', f'2-D {name} {moved}: coef has shape {coef.shape} for poly_order {po}', meta, True))
+                continue
+            lines.append(f'c08.evalb2 {";".join(qs(r) for r in coef)} {qs(x)} {qs(z)}')
+            checks.append(('evalb2', meta, (b, ox, oz)))
     res = drive(lines, timeout=1200)
     ctx.traces += len(lines)
     worst = 0.0
@@ -279,7 +351,7 @@ def replay(ctx, data):
         if 'weights' in kw and kw['weights'] is not None:
             kw['weights'] = np.array(kw['weights'])
         if r.get('two_d'):
-            kw['poly_order'] = tuple(kw['poly_order'])
+            kw['poly_order'] = kw['poly_order'] if isinstance(kw['poly_order'], int) else tuple(kw['poly_order'])
             x, z, Y = np.array(r['x']), np.array(r['z']), np.array(r['y'])
             b, p = getattr(Baseline2D(x, z), r['method'])(Y, **kw)
             coef = p['coef']
